@@ -253,6 +253,7 @@ fn consistent(a: &OGraph, b: &OGraph, perm: &[usize], i: usize) -> bool {
     true
 }
 
+/// iterative backtracking (graphs can have thousands of nodes: no recursion)
 #[allow(clippy::too_many_arguments)]
 fn search(
     a: &OGraph,
@@ -260,38 +261,70 @@ fn search(
     ca: &[u64],
     classes_b: &BTreeMap<u64, Vec<usize>>,
     order: &[usize],
-    pos: usize,
+    _pos: usize,
     perm: &mut Vec<usize>,
     used: &mut Vec<bool>,
     steps: &mut usize,
     budget: usize,
 ) -> Option<bool> {
-    if pos == order.len() {
+    let n = order.len();
+    if n == 0 {
         return Some(a.renumber(perm) == *b);
     }
-    let i = order[pos];
-    let cands = &classes_b[&ca[i]];
-    for &c in cands {
-        if used[c] {
+    // next candidate index to try at each position
+    let mut next: Vec<usize> = vec![0; n];
+    let mut pos: usize = 0;
+    loop {
+        if pos == n {
+            if a.renumber(perm) == *b {
+                return Some(true);
+            }
+            // backtrack from the last position
+            pos -= 1;
+            let i = order[pos];
+            used[perm[i]] = false;
+            perm[i] = usize::MAX;
             continue;
         }
-        *steps += 1;
-        if *steps > budget {
-            return None;
-        }
-        perm[i] = c;
-        used[c] = true;
-        if consistent(a, b, perm, i) {
-            match search(a, b, ca, classes_b, order, pos + 1, perm, used, steps, budget) {
-                Some(true) => return Some(true),
-                Some(false) => {}
-                None => return None,
+        let i = order[pos];
+        let cands = &classes_b[&ca[i]];
+        let mut advanced = false;
+        while next[pos] < cands.len() {
+            let c = cands[next[pos]];
+            next[pos] += 1;
+            if used[c] {
+                continue;
             }
+            *steps += 1;
+            if *steps > budget {
+                return None;
+            }
+            perm[i] = c;
+            used[c] = true;
+            if consistent(a, b, perm, i) {
+                advanced = true;
+                break;
+            }
+            perm[i] = usize::MAX;
+            used[c] = false;
         }
-        perm[i] = usize::MAX;
-        used[c] = false;
+        if advanced {
+            pos += 1;
+            if pos < n {
+                next[pos] = 0;
+            }
+        } else {
+            // exhausted this position
+            next[pos] = 0;
+            if pos == 0 {
+                return Some(false);
+            }
+            pos -= 1;
+            let j = order[pos];
+            used[perm[j]] = false;
+            perm[j] = usize::MAX;
+        }
     }
-    Some(false)
 }
 
 #[cfg(test)]
